@@ -31,7 +31,7 @@ let rec conns n fs =
 
 let input_of = function
   | "c8" :: route :: n :: rest ->
-    if one n > 8 then failwith "too many MX";
+    if one n > 8 || one n < 1 then failwith "number of MX";   (* getmxlist() never returns an empty list *)
     { k_route = one route land 1 <> 0; k_conns = conns (one n) rest }
   | _ -> failwith "fields"
 
